@@ -49,7 +49,8 @@ EXPECT_PROBES = ["announced", "lost_announced", "lost_half_open",
                  "same_dpid_overlap", "barrier_unsupported", "reset", "close",
                  "probe_send_hit", "probe_send_miss",
                  "unrelated_bad_type_error_mid_handshake",
-                 "glued_to_handshake_end", "nexus_up_listener_raised"]
+                 "glued_to_handshake_end", "nexus_up_listener_raised",
+                 "nexus_down_listener_halted"]
 
 DPIDS = [0x11, 0x2200000022]
 # the two datapath ids of a run are drawn from here (cfg["dpids"]); 0 and
@@ -69,7 +70,9 @@ def gen_plan(seed, tier):
          "recv_mode": r.pick(["all", "all", "choose", "dribble"]),
          "shuffle_ready": r.chance(0.3),
          "dpids": r.sample(DPID_POOL, 2) if r.chance(0.5) else list(DPIDS),
-         "up_listener_raises": r.chance(0.25)}
+         "up_listener_raises": r.chance(0.25),
+         "down_listener_halts": r.pick([None, None, None, "halt", "true",
+                                        "attr"])}
   # per-peer script, then a random interleaving
   scripts = []
   for p in range(npeers):
@@ -199,6 +202,20 @@ def _drive(sim, plan, known, hit):
       sim.probes["nexus_up_listener_raised"] += 1
       raise KeyError("a ConnectionUp listener of some component fails")
     world.nexus.addListenerByName("ConnectionUp", broken, priority=-2000)
+  how = cfg.get("down_listener_halts")
+  if how:
+    # the last ConnectionDown listener on the nexus halts the event (a legal
+    # revent return): what the connection's own listeners are told is not
+    # the nexus listeners' to veto
+    from pox.lib.revent import EventHalt
+
+    def halting(event):
+      sim.probes["nexus_down_listener_halted"] += 1
+      if how == "attr":
+        event.halt = True
+        return None
+      return EventHalt if how == "halt" else True
+    world.nexus.addListenerByName("ConnectionDown", halting, priority=-2000)
   peers = {}      # plan peer index -> (Peer, PeerModel)
   ann_counter = [0]
   xid_counter = [0x5000]
